@@ -103,6 +103,9 @@ def _move_ae(case, log):
 
 def run_case(case):
     common.import_repo()
+    if 'stack' in case:
+        from .. import svc_stack
+        return svc_stack.run_case(case, 'c19:')
     from pynetdicom2 import sopclass, applicationentity, exceptions, statuses, asceprovider
     from pydicom import uid
     viol = []
@@ -243,3 +246,8 @@ def run_case(case):
         viol.append((sig + ':handler-calls', 'on_receive_store called %d times for %d C-STORE requests (%s)' % (len(seen), len(sent_insts), where)))
     return {'viol': viol, 'case': case if viol else None, 'key': ('get', order, vec, case['final'], case['infile']),
             'sample': case if order == 'SPS' and vec == 'sw' else None}
+
+
+def finalize(rep, tier, seed):
+    from .. import svc_stack
+    svc_stack.extend(rep, ID, tier, seed, 'vp.checks.c19')
